@@ -141,6 +141,8 @@ class SqliteRecorder(CaseRecorder):
         for serial runs, only True for rank 0 of parallel runs.
     _abs2prom : {'input': dict, 'output': dict}
         Dictionary mapping absolute names to promoted names.
+    _abs2prom_depth : dict
+        Tree depth of the system that supplied the promoted name of each absolute name.
     _prom2abs : {'input': dict, 'output': dict}
         Dictionary mapping promoted names to absolute names.
     _abs2meta : {'name': {}}
@@ -171,6 +173,7 @@ class SqliteRecorder(CaseRecorder):
         self._record_viewer_data = record_viewer_data
 
         self._abs2prom = {'input': {}, 'output': {}}
+        self._abs2prom_depth = {}
         self._prom2abs = {'input': {}, 'output': {}}
         self._abs2meta = {}
         self._pickle_version = pickle_version
@@ -391,14 +394,17 @@ class SqliteRecorder(CaseRecorder):
                 objectives = driver._objs
 
             # merge current abs2prom and prom2abs with this system's version.  There is one
-            # promoted name per variable in the file, so a name already entered by a system higher
-            # up (recorders are started top down) must not be replaced by a subsystem's relative
-            # name: two instances of the same group would otherwise claim the same name.
+            # promoted name per variable in the file, so the name given by the system highest up
+            # the tree is kept: two instances of the same group would otherwise claim the same
+            # relative name.  Drivers, problems and solvers start after all the systems.
+            depth = system.pathname.count('.') + 1 if system.pathname else 0
+            a2p_depth = self._abs2prom_depth
             for io in ('input', 'output'):
                 a2p = self._abs2prom[io]
                 for abs_name, prom in system._resolver.abs2prom_iter(io):
-                    if abs_name not in a2p:
+                    if abs_name not in a2p or depth < a2p_depth[abs_name]:
                         a2p[abs_name] = prom
+                        a2p_depth[abs_name] = depth
             for v, abs_names in system._resolver.prom2abs_iter('input'):
                 if v not in self._prom2abs['input']:
                     self._prom2abs['input'][v] = abs_names.copy()
